@@ -61,6 +61,13 @@ def linspace (start stop : α) : Nat → List α
 
 /-! ### lhs -/
 
+/-- fancy indexing `u[kk]`: every index must be in range -/
+def gather {β : Type} (u : List β) : List Nat → Option (List β)
+  | [] => some []
+  | k :: ks => match u[k]?, gather u ks with
+    | some a, some r => some (a :: r)
+    | _, _ => none
+
 /-- one parameter of `lhs`: `perm` is what `np.random.permutation(n)` returned, `r` the unit draws in
 `[0, 1)` from which `np.random.uniform(-du/2, du/2, n)` is computed as `low + (high - low) * r` -/
 def lhsColumn (n : Nat) (pmin pmax : α) (perm : List Nat) (r : List α) : Except Err (List α) :=
@@ -69,7 +76,7 @@ def lhsColumn (n : Nat) (pmin pmax : α) (perm : List Nat) (r : List α) : Excep
   let lo := (-du) / 2
   let hi := du / 2
   if perm.length ≠ n ∨ r.length ≠ n then .error .drawsShape else
-  match perm.mapM (fun k => u[k]?) with
+  match gather u perm with
   | none => .error .drawsShape
   | some uk => .ok (List.zipWith (fun c ri => c + (lo + (hi - lo) * ri)) uk r)
 
